@@ -25,7 +25,7 @@ func (x *Ctx) stackRules(r *core.Result, rs *core.RuleStat, wantExact bool) {
 				r.Fail(rs, key, x.W.Pos(fc.Pos), p)
 			}
 			if wantExact && !rep.Exact {
-				r.Fail(rs, key+":size", x.W.Pos(fc.Pos), "the stack is not grown by exactly the missing number of slots (top+1-len(stack))")
+				r.Fail(rs, key+":size", x.W.Pos(fc.Pos), "the stack may grow to more than twice the depth reached (plus a constant): its size is not bounded by the nesting depth")
 			}
 			if len(rep.Problems) == 0 && (!wantExact || rep.Exact) {
 				rs.OK(1)
